@@ -19,7 +19,7 @@ ASSUME = [
 
 # properties whose statement is an internal-consistency claim over "every reachable
 # index state": part of their runs sweeps fault-recovered states (sim/recovered.py)
-RECOVERED = {"C04": "out", "C05": "out", "C07": "out", "C08": "out", "C10": "out", "C13": "out", "C20": "in"}
+RECOVERED = {"C01": "out", "C04": "out", "C05": "out", "C07": "out", "C08": "out", "C10": "out", "C13": "out", "C20": "in"}
 
 
 def seq_spec(prop, sweep, quick, thorough, rule, after_op=None, tier_kw=None, pre_op=None, **kw):
